@@ -32,7 +32,9 @@ STRINGS = ['""', "''", '"a"', "'a'", '"hello world"', "'it\\'s'", '"say \\"hi\\"
            '"}"', "'{'", '"</script>"']
 STRINGS_CONT = ['"a\\\nb"', "'a\\\r\nb'", '"x\\\ry"', '"p\\\u2028q"', "'\\\n'",
                 # several line terminators inside one token
-                '"a\\\nb\\\nc"', "'\\\n\\\r\n\\\rx'", '"l1\\\u2029l2\\\nl3\\\r\nl4"']
+                '"a\\\nb\\\nc"', "'\\\n\\\r\n\\\rx'", '"l1\\\u2029l2\\\nl3\\\r\nl4"',
+                # characters str.splitlines() breaks at but ES5 does not (FF, VT, FS, NEL), next to real continuations
+                '"a\x0cb\\\nc\x0bd"', "'\x1cx\\\r\ny\x85z\\\nw'"]
 REGEXES = ['/a/', '/a/g', '/ab+c/gi', '/[/]/', '/[a-z]/i', '/\\//', '/a\\/b/m', '/[\\]]/', '/(?:a|b)*/',
            '/^$/', '/\\d+/g', '/[^/]/', '/=/', '/=a/', '/ /', '/a b/', '/\\s/', '/[/\\]/]/', '/"/', "/'/",
            '/a/gim', '/{/', '/}/', '/(/ ', '/[(]/']
@@ -756,6 +758,11 @@ def render(tokens, style='space', rng=None, lt=None, comments=False):
         return ' '.join(texts)
     out = []
     lt = lt or '\n'
+    if style == 'random' and rng is not None and rng.random() < 0.25:
+        # something in front of the first token: a byte order mark (white space in ES5), blanks, a line
+        # terminator, a comment
+        out.append(rng.choice(['\ufeff', '\ufeff' + lt, ' ', '\t ', lt, lt + '  ', '\ufeff \xa0'] +
+                              (['/* head */ ', '// head' + lt, '\ufeff/*h' + lt + '*/'] if comments else [])))
     for i, (t, tag) in enumerate(tokens):
         if i:
             prev = texts[i - 1]
@@ -776,7 +783,8 @@ def render(tokens, style='space', rng=None, lt=None, comments=False):
                         (' ' * rng.randint(0, 4) if rng.random() < 0.5 else '')
                 elif comments and r < 0.95:
                     sep = rng.choice([' /* c%d */ ', '/*c%d*/', '/* c%d  */', '/** c%d **/', ' /*%d // */ ']) % i \
-                        if rng.random() < 0.6 else rng.choice(['/*m%d%s*/', '/**%s * m%d%s */', '/*%s%s%s m%d */']).replace(
+                        if rng.random() < 0.6 else rng.choice(['/*m%d%s*/', '/**%s * m%d%s */', '/*%s%s%s m%d */', '/* f\x0cf m%d%s v\x0bv%s \x85 */',
+                                                               '/*\x1c%s\x1d m%d \x1e%s*/']).replace(
                             '%s', lt).replace('%d', str(i))
                 elif comments:
                     # bodies with trailing / leading white space, empty bodies, comment openers inside
